@@ -1087,7 +1087,7 @@ func (e *buildEnv) build(g *tGraph) (compose.AnyGraph, compileFn, error) {
 		for i := range g.Nodes {
 			n := &g.Nodes[i]
 			var wn *compose.WorkflowNode
-			_ = addNode(n,
+			err := addNode(n,
 				func(l *compose.Lambda, o []compose.GraphAddNodeOpt) error {
 					wn = w.AddLambdaNode(n.Key, l, o...)
 					return nil
@@ -1096,8 +1096,8 @@ func (e *buildEnv) build(g *tGraph) (compose.AnyGraph, compileFn, error) {
 					wn = w.AddGraphNode(n.Key, a, o...)
 					return nil
 				})
-			if wn == nil {
-				return nil, nil, fmt.Errorf("verif: node %s could not be built", n.Key)
+			if err != nil || wn == nil {
+				return nil, nil, fmt.Errorf("add node %s: %v", n.Key, err)
 			}
 			wire(wn, n.Inputs)
 		}
